@@ -7,6 +7,7 @@ import json
 import random
 
 from monitors.lib import (
+    degenerate_system,
     SLACK,
     TOL,
     Env,
@@ -141,6 +142,9 @@ def _badly_scaled(*contracts):
 # witnesses of the known finding "LP answers on badly scaled rows" (always run, so that the finding is printed on every run)
 PINNED_COMPOSE = [
     {"op": "compose", "wiring": "pinned_cascade", "c1": {"in": [], "out": ["y"], "a": [], "g": [[{"y": -20000.0}, -20000.0]]}, "c2": {"in": ["y"], "out": ["z"], "a": [], "g": [[{"z": 1.0, "y": -0.001}, 0.0]]}, "keep": [], "simplify": True, "order": [1, 2, 3, 4, 5], "swap": False},
+    # repaired (63535c3): eliminating x with the other half of the equality leaves 0 <= 0.7 - 0.1 * 7.0 = -1.1e-16, which was read as a
+    # contradiction: ValueError from a composition that has the result i + y <= -7
+    {"op": "compose", "wiring": "pinned_rounding_residue", "c1": {"in": ["i"], "out": ["x"], "a": [], "g": [[{"x": 0.1, "i": -0.1}, 0.7], [{"x": -0.1, "i": 0.1}, -0.7]]}, "c2": {"in": ["x"], "out": ["y"], "a": [], "g": [[{"y": 1.0, "x": 1.0}, 0.0]]}, "keep": [], "simplify": True, "order": [1, 2, 3, 4, 5], "swap": False, "must_return": True},
     {"op": "compose", "wiring": "pinned_tiny_coefficient", "c1": {"in": ["x"], "out": ["p"], "a": [[{"x": 1.0}, 1.0]], "g": [[{"p": 1.0, "x": -1.0}, 0.0]]}, "c2": {"in": ["w"], "out": ["z"], "a": [[{"w": 1e-9}, 1e-8]], "g": [[{"z": 1.0, "w": -1.0}, 0.0]]}, "keep": [], "simplify": True, "order": [1, 2, 3, 4, 5], "swap": False},
 ]
 
@@ -178,6 +182,8 @@ def compose_eval(p):
         out["nontrivial"] = False
         if not _exc_ok(e):
             out["violation"] = {"key": "C14:compose:" + type(e).__name__, "prop": "C14", "what": "compose raised undocumented %s: %s" % (type(e).__name__, str(e)[:200]), "input": p, "monitor": "m_algebra", "fn": "compose_eval"}
+        elif p.get("must_return"):
+            out["violation"] = {"key": "C14:compose:%s_for_a_composition_that_exists" % type(e).__name__, "prop": "C14", "what": "compose raised %s (%s) although the composition exists" % (type(e).__name__, str(e)[:120]), "input": p, "monitor": "m_algebra", "fn": "compose_eval"}
         if (json.dumps(contract_data(c1)), json.dumps(contract_data(c2))) != snap:
             out["violation"] = {"key": "C13:compose:operand_modified_on_error", "prop": "C13", "what": "operand modified by a failing compose", "input": p, "monitor": "m_algebra", "fn": "compose_eval"}
         return out
@@ -463,11 +469,24 @@ def elim_case(seed, tier):
 # ----------------------------------------------------------------------------------------------
 # C03 : refinement exactness
 # ----------------------------------------------------------------------------------------------
+# pinned witnesses (run on every check): the first is an OPEN known finding - the LP optimum of a row over an unbounded region
+# is attained ~1e7 away from the origin, its round-off (1e-7) exceeds the absolute containment tolerance and a list does not
+# refine itself; the others were repaired (the solver's "infeasible" / "unbounded" at tight tolerances taken at face value)
+PINNED_REFINES = [
+    {"op": "refines", "family": "pinned", "tag": "distant_vertex", "left": [[{"x": 1000.0, "w": 1.0, "y": 10.0}, 1.0], [{"z": -1.0}, -10.0], [{"y": 1000.0, "w": -10.0}, -10.0], [{"z": 1000.0, "x": -1.0}, 0.0]], "right": [[{"x": 1000.0, "w": 1.0, "y": 10.0}, 1.0], [{"z": -1.0}, -10.0], [{"y": 1000.0, "w": -10.0}, -10.0], [{"z": 1000.0, "x": -1.0}, 0.0]], "expect": True},
+    {"op": "refines", "family": "pinned", "left": [[{"x": -7.0}, 28.0], [{"x": -929.0, "y": 1000.0}, -284.0], [{"x": 492.0, "y": -1.0}, -1964.0]], "right": [[{"x": 1.0}, -104.0]], "expect": False},
+    {"op": "refines", "family": "pinned", "left": [[{"x": -5000.0, "y": 2.0, "z": -1000.0}, 0.0], [{"x": -7.0, "y": -5000.0}, 0.0]], "right": [[{"x": -5000.0, "y": 2.0, "z": -1000.0}, 0.0], [{"x": -7.0, "y": -5000.0}, 0.0]], "expect": True},
+    {"op": "refines", "family": "pinned", "left": [[{"x": 49.0, "y": 7000.0}, 700980.0], [{"x": -49.0, "y": -7000.0}, -700980.0]], "right": [[{"x": 1.0}, -5000.0]], "expect": False},
+]
+
+
 def refines_build(seed, tier):
+    if seed % 1000003 < len(PINNED_REFINES):
+        return json.loads(json.dumps(PINNED_REFINES[seed % 1000003]))
     g = Gen(seed)
     r = g.r
     names = ["x", "y", "z", "w"][: r.randint(1, 4)]
-    fam = r.choice(["self", "sublist", "weakening", "farkas", "duplicate", "separated", "unrelated", "empty_left", "empty_right", "equal_bound", "unbounded", "variable_free"])
+    fam = r.choice(["self", "sublist", "weakening", "farkas", "duplicate", "separated", "unrelated", "empty_left", "empty_right", "equal_bound", "unbounded", "variable_free", "degenerate_left"])
     base = [g.term(names, 1, 3) for _ in range(r.randint(1, 4))]
     if fam in ("self", "sublist", "weakening", "farkas", "duplicate", "equal_bound") and r.random() < 0.7:
         for v in names:
@@ -507,6 +526,15 @@ def refines_build(seed, tier):
     elif fam == "unbounded":
         left = [g.term(names, 1, 2)]
         right, expect = [g.term(names, 1, 2)], None
+    elif fam == "degenerate_left":
+        # a feasible left side without interior (see lib.degenerate_system) against a constraint its point violates by 1,
+        # or against itself
+        kind, left, pt = degenerate_system(g, names)
+        n0 = sorted(pt)[0]
+        if r.random() < 0.6:
+            right, expect = g.bounds(n0, None, pt[n0] - 1), False
+        else:
+            right, expect = [t.copy() for t in left], (True if kind in ("redundant_equalities", "touching") else None)
     elif fam == "variable_free":
         # constraints whose coefficients cancelled: 0 <= c holds everywhere (c >= 0) or nowhere (c < 0)
         taut, contra = g.PT({}, float(r.choice([0, 1, 2]))), g.PT({}, -float(r.choice([1, 2])))
@@ -531,7 +559,10 @@ def refines_build(seed, tier):
         expect = None
     else:
         right, expect = [g.term(names, 1, 3) for _ in range(r.randint(1, 3))], None
-    return {"op": "refines", "family": fam, "left": tl_data(left), "right": tl_data(right), "expect": expect}
+    out = {"op": "refines", "family": fam, "left": tl_data(left), "right": tl_data(right), "expect": expect}
+    if fam == "degenerate_left" and expect is None:
+        out["no_must_true"] = True  # constants of 1e5..1e6: exact containment is not demanded to be recognised
+    return out
 
 
 def refines_eval(p):
@@ -551,8 +582,8 @@ def refines_eval(p):
         return out
     out["stats"]["answer_%s" % got] = 1
     out["sample"] = {"family": p["family"], "left": [str(t) for t in L.terms][:5], "right": [str(t) for t in R.terms][:4], "answer": got, "exactly_contained": exact_cex is None}
-    if exact_cex is None and not got:
-        out["violation"] = {"key": "C03:refines:false_on_exact_containment", "prop": "C03", "what": "refines answered False although the left side is exactly contained in the right (family %s)" % p["family"], "input": p, "monitor": "m_algebra", "fn": "refines_eval"}
+    if exact_cex is None and not got and not p.get("no_must_true"):
+        out["violation"] = {"key": "C03:refines:false_on_exact_containment" + (":" + p["tag"] if p.get("tag") else ""), "prop": "C03", "what": "refines answered False although the left side is exactly contained in the right (family %s)" % p["family"], "input": p, "monitor": "m_algebra", "fn": "refines_eval"}
     elif tol_cex is not None and got:
         out["violation"] = {"key": "C03:refines:true_on_violation", "prop": "C03", "what": "refines answered True although point %s violates the right side beyond the tolerance" % (tol_cex,), "input": p, "monitor": "m_algebra", "fn": "refines_eval"}
     return out
@@ -565,11 +596,21 @@ def refines_case(seed, tier):
 # ----------------------------------------------------------------------------------------------
 # C07 : simplify
 # ----------------------------------------------------------------------------------------------
+# pinned witnesses (repaired, 2528aca / 9207037): a feasible system ((-3,-2) satisfies every row) that simplify called unsatisfiable,
+# and a row implied with a margin of 0.5 that survived because its bounded LP was answered "unbounded"
+PINNED_SIMPLIFY = [
+    {"op": "simplify", "family": "pinned", "terms": [[{"x": -7.0}, 21.0], [{"x": 10000.0, "y": 10.0}, -30020.0], [{"x": -10000.0, "y": -10000.0}, 50000.0], [{"y": 1.0}, 0.0]], "context": []},
+    {"op": "simplify", "family": "pinned", "terms": [[{"x": -5000.0, "y": 2.0, "z": -1000.0}, 0.0], [{"x": -7.0, "y": -5000.0}, 0.0], [{"x": -5000.0, "y": 2.0, "z": -1000.0}, 0.5]], "context": []},
+]
+
+
 def simplify_build(seed, tier):
+    if seed % 1000003 < len(PINNED_SIMPLIFY):
+        return json.loads(json.dumps(PINNED_SIMPLIFY[seed % 1000003]))
     g = Gen(seed)
     r = g.r
     names = ["x", "y", "z", "u", "v"][: r.randint(1, 5)]
-    fam = r.choice(["random", "duplicates", "scaled", "combination", "via_context", "tight", "infeasible", "shared_with_context", "variable_free"])
+    fam = r.choice(["random", "duplicates", "scaled", "combination", "via_context", "tight", "infeasible", "shared_with_context", "variable_free", "degenerate"])
     base = [g.term(names, 1, 3) for _ in range(r.randint(1, 4))]
     ctx = []
     if fam == "duplicates":
@@ -596,6 +637,10 @@ def simplify_build(seed, tier):
     if r.random() < 0.3 and not ctx:
         ctx = [g.term(names, 1, 2)]
     r.shuffle(base)
+    if fam == "degenerate":
+        # a feasible system without interior (see lib.degenerate_system): simplify must not call it unsatisfiable
+        kind, base, _pt = degenerate_system(g, names)
+        ctx = []
     if fam == "variable_free":
         # constraints whose coefficients cancelled (0 <= c), one or two of them, failing and holding ones in either order,
         # in the list or in the context
